@@ -136,7 +136,16 @@ def run_sweep(pid, work):
     killed = [r for r in ana if r['rules'] or r['missing']]
     by_prop = [r for r in ana if pid in r.get('props', [])]
     alive = [r for r in ana if not (r['rules'] or r['missing'])]
+    regress = []
+    bp = os.path.join(VERIF, 'selftest', 'sweep_baseline.json')
+    if os.path.exists(bp):
+        base = json.load(open(bp))['mutants']
+        for r in ana:
+            k = '%s|%s|%s|#%d' % (r['file'], r['op'], r['old'], r.get('occ', 0))
+            if k in base and base[k]['killed'] and not (r['rules'] or r['missing']):
+                regress.append(k)
     return {'files': files, 'operators': 'DEL (delete statement), NEG (negate if-condition), CMP (flip comparison)', 'generated': len(res), 'type_check': len(ana),
+            'checker_regressions_vs_baseline': regress,
             'reported_by_some_rule': len(killed), 'reported_by_this_property': len(by_prop),
             'not_reported_sample': ['%s:%d %s %s' % (r['file'], r['line'], r['op'], r['old'][:60]) for r in alive[:25]],
             'note': 'most unreported mutants change values/arithmetic or code outside this property; they are listed for triage, not as findings'}
